@@ -97,7 +97,9 @@ def zones():
             if name in ("EST", "CET", "IST", "JST", "NZDT", "ACST", "AKDT", "NST", "WIB"):
                 if not any(l[1] == name for l in lib):
                     lib.append(("lib", name, sec))
-        _ZONES = [("pytz", z, None) for z in pytz.common_timezones] + lib
+        # every tz-database name (common and deprecated/alias ones, incl. those that also look like library
+        # abbreviations: CET, EST5EDT, Etc/GMT+5 ...): TIMEZONE resolves through the tz database first
+        _ZONES = [("pytz", z, None) for z in pytz.all_timezones] + lib
     return _ZONES
 
 
